@@ -32,7 +32,7 @@ type fakeFile struct {
 
 func fsPoint(kind string) {
 	if t := vsched.Cur(); t != nil {
-		t.Point(&vsched.Op{Kind: kind})
+		t.EnvPoint(kind)
 	}
 }
 
@@ -282,10 +282,10 @@ func TestCheck(t *testing.T) {
 	vlib.Main(t, "C20", func(c *vlib.Ctx) {
 		S, N := true, false
 		sc := []d1x.Scenario{
-			mk("2sync", scen{recs: []rec{{10, S}, {20, S}}}, 2, 3, 3),
+			mk("2sync", scen{recs: []rec{{10, S}, {20, S}}}, 2, 3, 6),
 			mk("sync-nosync-sync", scen{recs: []rec{{10, S}, {5, N}, {20, S}}}, 1, 2, 1),
 			mk("2sync-walsync-format", scen{recs: []rec{{10, S}, {20, S}}, walSync: true}, 1, 2, 1),
-			mk("2sync-minsyncinterval", scen{recs: []rec{{10, S}, {20, S}}, minSync: true}, 1, 2, 2),
+			mk("2sync-minsyncinterval", scen{recs: []rec{{10, S}, {20, S}}, minSync: true}, 1, 2, 4),
 			mk("2sync-errors", scen{recs: []rec{{10, S}, {20, S}}, errs: true}, 1, 2, 2),
 			mk("2sync-external-queue", scen{recs: []rec{{10, S}, {20, S}}, external: true}, 1, 2, 1),
 			mk("bigrecord-sync", scen{recs: []rec{{40000, S}, {10, S}}}, 1, 2, 1),
